@@ -227,7 +227,8 @@ def main(argv):
             cfgs = (a.configs.split(",") if a.configs else ALL_CONFIGS)
             nf, nb, npnt = int(300000 * a.scale), int(600000 * a.scale), int(60000 * a.scale)
         exes = build_many(cfgs)
-        m = run_rounds(1 if a.tier == "quick" else 2, "c20", "gen", (names, nf // NCPU + 1, nb // NCPU + 1, npnt // NCPU + 1), [(c, exes[c]) for c in cfgs], a.seed, timeout=3600)
+        m = run_rounds(1 if a.tier == "quick" else 2, "c20", "gen", (names, nf // NCPU + 1, nb // NCPU + 1, npnt // NCPU + 1), [(c, exes[c]) for c in cfgs], a.seed, timeout=3600,
+                       split=1 if a.tier == "quick" else 3, count_idx=(1, 2, 3))
         rep.merge(m)
         rep.require("field:set_cond:ctl=0", "field:set_cond:ctl=1", "field:cswap:ctl=1", "field:equals:equal-other-repr", "field:equals:neighbour",
                     "field:equals:one-bit", "field:iszero:nonzero-repr-of-zero", "field:lookup16_x3:out-of-range", "field:lookup16_x4:in-range",
